@@ -18,7 +18,7 @@ META = {
     "rule": "case = (scenario, dispatcher, schedule decision list / preemption point); distinct by that; non-trivial when the run reached an established connection or an injected ending and was followed by a second run",
     "exhaustive": {"quick": False, "thorough": True},
     "exhaustive_space": {"thorough": "all single preemptions (every line/sync/IO point of the loop actor after arming) for 4 cross-thread-close scenarios", "quick": "strided single-preemption sweep (<= 250 points per scenario)"},
-    "bounds": "single forced preemption systematically, two preemptions sampled; line granularity",
+    "bounds": "single forced preemption systematically (complete in thorough), two and three forced preemptions sampled (sweep2), seeded random schedules; line granularity",
     "required_counters": ["runs_judged", "sweep_runs", "second_runs_judged", "on_close_checked"],
     "assumptions": [],
 }
@@ -333,6 +333,7 @@ def run(res, tier, seed, shard, nshards):
     jobs.append(("sweep-start", sweep_scs[0], 1))
     for sc in sweep_scs:
         jobs.append(("random2", sc, 0))
+        jobs.append(("sweep2", sc, 0))
     # simulator fidelity: timing-free scenarios replayed on real loopback TCP with real threads
     from .. import fidelity
     byname = {sc["name"]: sc for sc in SC}
@@ -348,6 +349,17 @@ def run(res, tier, seed, shard, nshards):
             run_scenario(res, W, sc, sched.NonPreemptive(), "plain", dispatcher_kind=arg)
             res.count("scenario_runs")
             res.sample({"scenario": sc["name"], "dispatcher": arg or "builtin", "ending": sc["ending"]}, cap=4)
+        elif kind == "sweep2":
+            # two or three forced preemptions at random places of the loop / closer / ping thread
+            r0, S0 = run_scenario(res, W, sc, sched.NonPreemptive(), "baseline", with_second=False, line_points=True, closer_at=1.0)
+            pts = [(a.name, k) for a in S0.actors for k in range(1, a.points + 1)]
+            rr = random.Random((seed << 8) ^ ji)
+            for i in range(80 if quick else 6000):
+                if len(pts) < 3:
+                    break
+                st = sched.Preemptions(rr.sample(pts, 2 if i % 3 else 3))
+                run_scenario(res, W, sc, st, f"preempt2#{i}", with_second=False, line_points=True, closer_at=1.0)
+                res.count("sweep2_runs")
         elif kind == "fidelity":
             ok, detail = fidelity.compare(W, sc)
             if ok is True:
